@@ -146,7 +146,7 @@ var metas = map[string]propMeta{
 	"C10": {node: true, quickRuns: 2500, thoroughSec: 1200, batch: 200, level: "exploration"},
 	"C11": {node: true, quickRuns: 2500, thoroughSec: 1200, batch: 200, level: "exploration"},
 	"C12": {node: true, quickRuns: 2500, thoroughSec: 1200, batch: 200, level: "exploration"},
-	"C13": {node: true, quickRuns: 2500, thoroughSec: 1200, batch: 200, level: "exploration"},
+	"C13": {node: true, quickRuns: 1200, thoroughSec: 1200, batch: 200, level: "exploration"},
 	"C14": {node: true, quickRuns: 2500, thoroughSec: 1200, batch: 200, level: "exploration"},
 	"C15": {node: true, quickRuns: 600, thoroughSec: 1200, batch: 100, level: "exploration", race: true},
 	"C16": {node: true, quickRuns: 1500, thoroughSec: 1200, batch: 150, level: "exploration"},
@@ -473,6 +473,19 @@ func shrink(bi *buildInfo, prop string, seed uint64, oracle string, choices []ui
 		return false
 	}
 
+	// 0. truncation: choices beyond the end replay as 0 (= the simplest alternative), so a prefix
+	// is "same beginning, then no faults / lowest task / source order". Search the shortest one.
+	for round := 0; round < 6 && len(best) > 8; round++ {
+		var cands [][]uint32
+		n := len(best)
+		for _, num := range []int{0, 1, 2, 3, 4, 5, 6, 7, 8, 9, 10, 11} {
+			k := n * num / 12
+			cands = append(cands, append([]uint32(nil), best[:k]...))
+		}
+		if !try(cands) {
+			break
+		}
+	}
 	improved := true
 	for improved && time.Now().Before(deadline) && tried < maxCand {
 		improved = false
@@ -693,6 +706,15 @@ func doCheck(prop, tier string) int {
 			return nil
 		}
 		n := meta.batch
+		if tier == "quick" {
+			// small batches: a few long runs must not leave most workers idle
+			if b := quickRuns / (workers * 6); b < n {
+				n = b
+			}
+			if n < 8 {
+				n = 8
+			}
+		}
 		if tier == "quick" && next+n > quickRuns {
 			n = quickRuns - next
 		}
